@@ -24,7 +24,8 @@ NULLS = ["-999.25", "-999.2500", "-9.9925E2", "-999.250"]
 SEPS = [" ", "  ", "\t", " \t", "    ", "\t\t"]
 LEADS = ["", " ", "   ", "\t", "  \t"]
 TRAILS = ["", " ", "   ", "\t"]
-NOISE = ["", "   ", "\t", "# a comment", "#", "# 1 2 3", "  # indented comment"]
+NOISE = ["", "   ", "\t", "# a comment", "#", "# 1 2 3", "  # indented comment", "# page\x0cbreak", "\x0c", "# nel\x85here", "# vt\x0b fs\x1c gs\x1d rs\x1e",
+         "# ls\u2028 ps\u2029", "\x1c"]
 TITLES = ["~A", "~ASCII", "~Ascii Data", "~A  DEPT  C1  C2", "~ASCII -----------------"]
 TAILS = [
     ["~Parameter Information", "BHT .DEGC   35.5 : BOTTOM HOLE TEMPERATURE", "MUD .   GEL : MUD TYPE"],
@@ -62,7 +63,11 @@ def build_text(sc):
         noise.setdefault(min(pos, len(sc["rows"])), []).append(txt)
     for i, r in enumerate(sc["rows"]):
         lines += noise.get(i, [])
-        lines.append(r["lead"] + r["sep"].join(r["cells"]) + r["trail"])
+        if r.get("seps"):
+            body = r["cells"][0] + "".join(sp + c for sp, c in zip(r["seps"], r["cells"][1:]))
+        else:
+            body = r["sep"].join(r["cells"])
+        lines.append(r["lead"] + body + r["trail"])
     lines += noise.get(len(sc["rows"]), [])
     for s in sc["tail"]:
         lines += s
@@ -122,6 +127,8 @@ class C02(Prop):
         for i in range(nr):
             l, sp, t = pad if same_pad else (g.choice(LEADS), g.choice(seps), g.choice(TRAILS))
             rows.append({"cells": [gen_cell(g, j, i) for j in range(nc)], "lead": l, "sep": sp, "trail": t})
+            if dlm != "TAB" and nc >= 3 and g.random() < 0.2:
+                rows[-1]["seps"] = [g.choice([" ", "\t", "  ", " \t", "\t "]) for _ in range(nc - 1)]     # blanks and tabs mixed on one line
         noise = []
         if g.random() < 0.6:
             for _ in range(g.randint(1, 4)):
@@ -231,9 +238,10 @@ class C02(Prop):
             yield d
         for i, r in enumerate(sc["rows"]):
             std = ("", "\t", "") if sc.get("dlm") == "TAB" else (" ", " ", "")
-            if (r["lead"], r["sep"], r["trail"]) != std:
+            if (r["lead"], r["sep"], r["trail"]) != std or r.get("seps"):
                 d = copy.deepcopy(sc)
                 d["rows"][i].update({"lead": std[0], "sep": std[1], "trail": std[2]})
+                d["rows"][i].pop("seps", None)
                 yield d
         if sc.get("dlm") == "SPACE":
             d = copy.deepcopy(sc)
